@@ -27,7 +27,12 @@ Definition IP6_specs : stable :=
 (* hop-by-hop options header: Next Header, Hdr Ext Len (8-octet units beyond the first 8), options *)
 Definition hbh_len (l : bytes) : N := 8 * bits l 8 8 + 8.
 (* the options area (RFC 8200 4.2) is a sequence of TLVs: Pad1 is the single octet 0; every other option is
-   type(8) length(8) data(length octets).  The parse succeeds iff the options tile the area exactly. *)
+   type(8) length(8) data(length octets).  Router alert (type 5, RFC 2711) has length 2, jumbo payload (type 0xC2,
+   RFC 2675) length 4; an option that is not recognised (PadN = 1 is) and whose two highest type bits are not 00
+   means "discard the packet" (RFC 8200 4.2).  The parse succeeds iff every option is acceptable and the options
+   tile the area exactly. *)
+Definition hbh_option_ok (t n : N) : bool :=
+  if t =? 1 then true else if t =? 5 then n =? 2 else if t =? 194 then n =? 4 else t / 64 =? 0.
 Fixpoint hbh_tlvs_ok (fuel : nat) (d : bytes) : bool :=
   match fuel with
   | O => false
@@ -38,7 +43,8 @@ Fixpoint hbh_tlvs_ok (fuel : nat) (d : bytes) : bool :=
           if t =? 0 then hbh_tlvs_ok f r else
           match r with
           | [] => false
-          | n :: r' => if Nat.ltb (List.length r') (N.to_nat n) then false else hbh_tlvs_ok f (skipn (N.to_nat n) r')
+          | n :: r' => if negb (hbh_option_ok t n) then false
+                       else if Nat.ltb (List.length r') (N.to_nat n) then false else hbh_tlvs_ok f (skipn (N.to_nat n) r')
           end
       end
   end.
